@@ -22,6 +22,12 @@ B5_TAGS = {"CHK": ["123456789ABC"], "MAC": ["00000000"], "TNG": [""], "DLM": [""
            "MRF": ["1806271539180626BANKFRPPAXXX2222123456"], "PDM": ["", "1213120811BANKFRPPAXXX2222123456"], "SYS": ["1454120811BANKFRPPAXXX2222123456"]}
 
 
+def partly_read(t, v):
+    """the values of the listed class C10-block3-structured-tags-partly-read: shorter than / shaped differently from what the reader
+    expects (the near-miss values) and the documented /code/text form of 165, 433, 434"""
+    return v in B3_NEAR.get(t, []) or (t in ("165", "433", "434") and v.startswith("/"))
+
+
 def gen_b1(rng):
     return rng.choice("FAL") + rng.choice(["01", "21"]) + "".join(rng.choice("ABCDEFGH") for _ in range(6)) + rng.choice(["2L", "33", "FF"]) + \
         rng.choice("AXB") + rng.choice(["XXX", "123", "ABC"]) + "%04d" % rng.randrange(10000) + "%06d" % rng.randrange(1000000)
@@ -68,7 +74,9 @@ def run(ctx):
     ctx.rule = ("well-formed basic / application (I and O) / user / trailer headers built from their documented components (every subset "
                 "and order of the 13 block-3 and 8 block-5 tags), near-miss variants (length +-1, +3, non-ASCII, lower case, wrong direction, "
                 "bad monitoring character, short structured tag values, tag text inside a value, long block 3), and whole messages with "
-                "every combination of present/absent optional blocks around a block 4, incl. block-like text inside field values; "
+                "every combination of present/absent optional blocks around a block 4, incl. block-like text inside field values and block-3 values "
+                "that end in a hyphen; whole messages (3 / 30 types, input and output block 2) with every recognised block-3 / block-5 tag alone, every "
+                "pair of block-3 tags and all tags together through parse and serialisation; "
                 "distinct = (stream, outcome class, shape)")
     standard_front(ctx, __import__("c10"))
     rng = ctx.rng
@@ -107,7 +115,7 @@ def run(ctx):
             continue
         b1 = gen_b1(rng); b2 = gen_b2i(rng)[:1] + c + gen_b2i(rng)[4:]
         body = sp[1]
-        for has3, has5 in itertools.product((False, True, "long"), (False, True)):
+        for has3, has5 in itertools.product((False, True, "long", "hyphen"), (False, True)):
             for inj in inject:
                 toks = mtgen.tokens(body)
                 if inj:
@@ -118,12 +126,38 @@ def run(ctx):
                     i = idx[0]
                     toks = toks[:i] + [(toks[i][0], toks[i][1].split("\n")[0][:20] + " " + inj)] + toks[i + 1:]
                 b4 = "\n" + mtgen.render(toks) + "\n"
-                b3 = allfull if has3 == "long" else "{108:MUR1}{121:a1b2c3d4-e5f6-4a7b-8c9d-0e1f2a3b4c5d}" if has3 else None
+                b3 = allfull if has3 == "long" else "{108:PAY-2024-}{424:REL-}" if has3 == "hyphen" else "{108:MUR1}{121:a1b2c3d4-e5f6-4a7b-8c9d-0e1f2a3b4c5d}" if has3 else None
                 b5 = "{CHK:123456789ABC}" if has5 else None
                 raw = "{1:%s}\n{2:%s}\n" % (b1, b2) + ("{3:%s}\n" % b3 if has3 else "") + "{4:%s-}\n" % b4 + ("{5:%s}\n" % b5 if has5 else "")
                 cases.append("blocks\t%s" % hexs(raw)); meta.append(("blocks", raw, (b1, b2, b3, b4, b5, inj)))
+    # whole messages through parse and serialisation: every recognised tag of block 3 / 5 alone, every pair of block-3 tags,
+    # values that end in a hyphen; the printed text must carry the same blocks 1, 2 and the same tag values in blocks 3 and 5
+    wl = []
+    for t in tags3:
+        for v in B3_TAGS[t]:
+            wl.append(([(t, v)], []))
+    for t1, t2 in itertools.combinations(tags3, 2):
+        wl.append(([(t1, B3_TAGS[t1][0]), (t2, B3_TAGS[t2][0])], []))
+    for t in ("108", "424", "113", "115"):
+        wl.append(([(t, {"113": "AB-", "115": "ADDR-"}.get(t, "REF-2024-"))], []))
+    for t in tags5:
+        for v in B5_TAGS[t]:
+            wl.append(([], [(t, v)]))
+    wl.append(([(t, B3_TAGS[t][0]) for t in tags3], [(t, B5_TAGS[t][0]) for t in tags5]))
+    wtypes = mtgen.SUPPORTED if ctx.tier == "thorough" else rng.sample(mtgen.SUPPORTED, 3)
+    for c in wtypes:
+        sp = mtgen.split_message(seeds[c][0][1])
+        if not sp:
+            continue
+        for tv3, tv5 in wl:
+            for b2 in ((gen_b2i(rng)[:1] + c + gen_b2i(rng)[4:]), (gen_b2o(rng)[:1] + c + gen_b2o(rng)[4:])):
+                b1 = gen_b1(rng)
+                b3 = "".join("{%s:%s}" % tv for tv in tv3)
+                b5 = "".join("{%s:%s}" % tv for tv in tv5)
+                raw = "{1:%s}{2:%s}" % (b1, b2) + ("{3:%s}" % b3 if tv3 else "") + "{4:\n%s\n-}" % sp[1].strip("\n") + ("{5:%s}" % b5 if tv5 else "")
+                cases.append("jrt\tMT%s\t%s" % (c, hexs(raw))); meta.append(("whole", raw, (b1, b2, tv3, tv5)))
     res = run_lib(ctx, cases, "c10")
-    mres = run_model(ctx, cases, "c10")
+    mres = run_model(ctx, [c for c in cases if not c.startswith("jrt\t")], "c10") + [None] * sum(1 for c in cases if c.startswith("jrt\t"))
     kn = {k["match"]["kind"]: k["id"] for k in known if "match" in k}
     def hit(kind):
         if kind in kn:
@@ -156,7 +190,7 @@ def run(ctx):
                 if ("{%s:%s}" % (t, v)) in disp or (kind == "hdr5" and v == "" and ("{%s}" % t) in disp):
                     continue
                 # a recognised tag was not reproduced with its value
-                if kind == "hdr3" and t in ("423", "106", "165", "433", "434") and hit("b3_structured_partial"):
+                if kind == "hdr3" and partly_read(t, v) and hit("b3_structured_partial"):
                     continue
                 if kind == "hdr5" and t in ("TNG", "DLM", "PDE", "MRF", "PDM", "SYS") and hit("b5_unparsed_tags"):
                     continue
@@ -167,6 +201,28 @@ def run(ctx):
                 md = bytes.fromhex(m.split("\t")[1]).decode()
                 if md != disp:
                     ctx.disagreements.append({"stream": kind, "input": s[:120], "model": md[:160], "library": disp[:160], "replay": replay})
+        elif kind == "whole":
+            b1, b2, tv3, tv5 = info
+            ctx.distinct.add((kind, tuple(t for t, _ in tv3), tuple(t for t, _ in tv5), b2[0]))
+            if not ok:
+                # the base text is a shipped example that the library accepts; only the envelope was varied
+                ctx.violations.append(("a well-formed message with block 3 %r / block 5 %r is rejected: %s" % (tv3, tv5, str(r.get("display"))[:120]), replay))
+                continue
+            out = r.get("mt") or ""
+            if ("{1:%s}" % b1) not in out or ("{2:%s}" % b2) not in out:
+                ctx.violations.append(("blocks 1 / 2 are not reproduced: %r %r in %r" % (b1, b2, out[:120]), replay))
+            m3 = re.search(r"\{3:((?:\{[^{}]*\})*)\}", out)
+            m5 = re.search(r"\{5:((?:\{[^{}]*\})*)\}\s*$", out)
+            for blk, tvs, mm in (("3", tv3, m3), ("5", tv5, m5)):
+                disp = mm.group(1) if mm else ""
+                for t, v in tvs:
+                    if ("{%s:%s}" % (t, v)) in disp or (blk == "5" and v == "" and ("{%s}" % t) in disp):
+                        continue
+                    if blk == "3" and partly_read(t, v) and hit("b3_structured_partial"):
+                        continue
+                    if blk == "5" and t in ("TNG", "DLM", "PDE", "MRF", "PDM", "SYS") and hit("b5_unparsed_tags"):
+                        continue
+                    ctx.violations.append(("whole message: tag %s of block %s with value %r is not reproduced by serialisation (block printed as %r)" % (t, blk, v, disp[:120]), replay))
         else:
             b1, b2, b3, b4, b5, inj = info
             got = r.get("blocks")
